@@ -95,6 +95,16 @@ impl On {
             On::EqConjL => "eq+conj(l)",
         }
     }
+    /// name used in signatures: the operand order of the equality and the side of the extra conjunct
+    /// are details of the case, not of the construct
+    fn sig(self) -> &'static str {
+        match self {
+            On::None => "none",
+            On::Eq | On::EqRev => "eq",
+            On::Lt => "lt",
+            On::EqConjR | On::EqConjL => "eq+conj",
+        }
+    }
     fn parse(s: &str) -> Option<On> {
         [On::None, On::Eq, On::EqRev, On::Lt, On::EqConjR, On::EqConjL].into_iter().find(|k| k.name() == s)
     }
@@ -151,6 +161,17 @@ impl Wh {
             Wh::MNull => "where(m-null)",
         }
     }
+    /// name used in signatures: which side the WHERE clause restricts
+    fn sig(self) -> &'static str {
+        match self {
+            Wh::None => "",
+            Wh::True => "where(true)",
+            Wh::L | Wh::LNull | Wh::LKey => "where(l)",
+            Wh::R | Wh::RNull | Wh::RKey => "where(r)",
+            Wh::JoinEq | Wh::JoinEqR => "where(join)",
+            Wh::M | Wh::MNull => "where(m)",
+        }
+    }
     fn parse(s: &str) -> Option<Wh> {
         [Wh::None, Wh::True, Wh::L, Wh::R, Wh::LNull, Wh::RNull, Wh::LKey, Wh::RKey, Wh::JoinEq, Wh::JoinEqR, Wh::M, Wh::MNull].into_iter().find(|k| k.name() == s)
     }
@@ -196,12 +217,12 @@ impl QSpec {
     }
     /// third signature component: ON shape(s) + WHERE shape + form
     fn shape_name(&self) -> String {
-        let mut s = self.on.name().to_string();
+        let mut s = self.on.sig().to_string();
         if self.kinds.len() == 2 {
             s.push('&');
             s.push_str(self.on2.name());
         }
-        for extra in [self.wh.name(), self.form.name()] {
+        for extra in [self.wh.sig(), self.form.name()] {
             if !extra.is_empty() {
                 s.push('+');
                 s.push_str(extra);
@@ -333,11 +354,13 @@ fn build_query(s: &QSpec, pad_cols: bool, xb: i64, yb: i64) -> (Query, String) {
 
 /// 2-way specs, simplest first (bases before the queries derived from them)
 fn specs_two(thorough: bool) -> Vec<QSpec> {
-    let _ = thorough;
+    // quick: 4 ON shapes x 6 WHERE shapes; thorough adds the reversed equality and the key-equality WHEREs
+    let ons: Vec<On> = ONS.iter().copied().filter(|o| thorough || *o != On::EqRev).collect();
+    let whs: Vec<Wh> = WHS2.iter().copied().filter(|w| thorough || !matches!(w, Wh::LKey | Wh::RKey)).collect();
     let mut v = vec![];
     // explicit columns, no WHERE
     for k in KINDS_ON {
-        for on in ONS {
+        for on in ons.iter().copied() {
             v.push(QSpec::two(k, on, Wh::None, Form::Cols));
         }
     }
@@ -346,14 +369,14 @@ fn specs_two(thorough: bool) -> Vec<QSpec> {
     }
     // WHERE on either side
     for k in KINDS_ON {
-        for on in ONS {
-            for wh in &WHS2[1..] {
+        for on in ons.iter().copied() {
+            for wh in &whs[1..] {
                 v.push(QSpec::two(k, on, *wh, Form::Cols));
             }
         }
     }
     for k in [Kind::Cross, Kind::Comma] {
-        for wh in WHS2[1..].iter().chain([Wh::JoinEq, Wh::JoinEqR].iter()) {
+        for wh in whs[1..].iter().chain([Wh::JoinEq, Wh::JoinEqR].iter()) {
             v.push(QSpec::two(k, On::None, *wh, Form::Cols));
         }
     }
@@ -587,6 +610,65 @@ fn operators(plan: &Option<String>) -> String {
     }
 }
 
+/// Compact shape of an EXPLAIN text: node names nested by indentation, join type kept, table / index
+/// names and parameters dropped, the root Project dropped.  E.g.
+/// `GraceHashJoin:Left(TableScan,Filter(TableScan))`, `Filter(IndexNestedLoopJoin:Inner(TableScan,IndexLookup))`.
+fn plan_shape(plan: &Option<String>) -> String {
+    let Some(p) = plan else { return "explain-error".into() };
+    // (indent, label)
+    let mut nodes: Vec<(usize, String)> = vec![];
+    for line in p.lines() {
+        let indent = line.len() - line.trim_start().len();
+        let l = line.trim_start();
+        let l = if let Some(rest) = l.strip_prefix("-> ") {
+            rest
+        } else if l.starts_with("Inner: Index lookup") {
+            "IndexLookup"
+        } else {
+            continue; // "Build:", "Probe (streaming):", "Outer:" labels
+        };
+        let name: String = l.chars().take_while(|c| c.is_ascii_alphanumeric()).collect();
+        if name.is_empty() {
+            continue;
+        }
+        let mut label = name.clone();
+        if name.ends_with("Join") {
+            if let Some(o) = l.find('(') {
+                if let Some(c) = l[o..].find(')') {
+                    label = format!("{name}:{}", &l[o + 1..o + c]);
+                }
+            }
+        }
+        nodes.push((indent, label));
+    }
+    if nodes.is_empty() {
+        return "empty-plan".into();
+    }
+    fn render(nodes: &[(usize, String)], i: &mut usize) -> String {
+        let (ind, label) = nodes[*i].clone();
+        *i += 1;
+        let mut kids = vec![];
+        while *i < nodes.len() && nodes[*i].0 > ind {
+            kids.push(render(nodes, i));
+        }
+        if kids.is_empty() {
+            label
+        } else {
+            format!("{label}({})", kids.join(","))
+        }
+    }
+    let mut i = 0;
+    let mut tops = vec![];
+    while i < nodes.len() {
+        tops.push(render(&nodes, &mut i));
+    }
+    let s = tops.join(";");
+    match s.strip_prefix("Project(").and_then(|r| r.strip_suffix(')')) {
+        Some(inner) if tops.len() == 1 => inner.to_string(),
+        _ => s,
+    }
+}
+
 fn budget_class(b: Option<u64>) -> &'static str {
     match b {
         None => "default",
@@ -735,14 +817,21 @@ fn run_db(pass: &str, ctx: &Ctx, rep: &mut Reporter, t: &Tabs, v: Variant, prep:
         None
     };
     let watch = watch.as_ref();
-    let ops: Vec<String> = prep.iter().map(|p| operators(&explain(db.db(), &p.sql))).collect();
-    for (p, op) in prep.iter().zip(ops.iter()) {
-        rep.count(&format!("op[{}]", op), 1);
-        if p.spec.form == Form::Cols {
-            rep.count(&format!("plan[{}/{}]={}", p.spec.kind_name(), p.spec.on.name(), op), 1);
+    let plans: Vec<Option<String>> = prep.iter().map(|p| explain(db.db(), &p.sql)).collect();
+    let ops: Vec<String> = plans.iter().map(plan_shape).collect();
+    for (p, plan) in prep.iter().zip(plans.iter()) {
+        let joins = operators(plan);
+        for j in joins.split('>') {
+            rep.count(&format!("op[{}]", j), 1);
+        }
+        if p.spec.form == Form::Cols && p.spec.wh == Wh::None {
+            rep.count(&format!("plan[{}/{}]={}", p.spec.kind_name(), p.spec.on.sig(), joins), 1);
         }
     }
     let mut first: Vec<Option<Res>> = vec![None; prep.len()];
+    // failure class of every query under the default budget: the same failure under another budget is the
+    // same defect (blame goes to the simplest configuration) and is only counted
+    let mut default_failure: Vec<Option<String>> = vec![None; prep.len()];
     for (bi, b) in budgets.iter().enumerate() {
         if let Some(b) = b {
             if let Err(e) = set_budget(&db, *b) {
@@ -764,7 +853,11 @@ fn run_db(pass: &str, ctx: &Ctx, rep: &mut Reporter, t: &Tabs, v: Variant, prep:
             if let Some(w) = watch {
                 w.drain();
             }
+            let t_exec = std::time::Instant::now();
             let res = db.exec(&p.sql);
+            if ctx.opt("timing").is_some() && t_exec.elapsed().as_millis() > 50 {
+                eprintln!("   exec {:?} {}", t_exec.elapsed(), vcore::util::clip(&p.sql, 120));
+            }
             if let Some(w) = watch {
                 let created = w.drain();
                 rep.count("pad_queries_watched", 1);
@@ -775,7 +868,11 @@ fn run_db(pass: &str, ctx: &Ctx, rep: &mut Reporter, t: &Tabs, v: Variant, prep:
             }
             rep.bulk(1, (!p.expected.is_empty()) as u64);
             rep.count(&format!("exec[{}]", budget_class(*b)), 1);
+            let t_j = std::time::Instant::now();
             let verdict = judge(&p.expected, &res);
+            if ctx.opt("timing").is_some() && t_j.elapsed().as_millis() > 50 {
+                eprintln!("   judge {:?} {}", t_j.elapsed(), vcore::util::clip(&p.sql, 120));
+            }
             match &verdict {
                 None => {
                     rep.outcome(&format!("{}:{}", p.spec.kind_name(), if p.expected.is_empty() { "ok-empty" } else { "ok-rows" }));
@@ -787,8 +884,15 @@ fn run_db(pass: &str, ctx: &Ctx, rep: &mut Reporter, t: &Tabs, v: Variant, prep:
                 Some((f, exp, obs)) => {
                     failed.insert(p.spec.clone());
                     rep.outcome(&format!("{}:{}", p.spec.kind_name(), f));
-                    let sig = signature(&p.spec, &ops[qi], *b, f);
-                    rep.violation(PROP, "model", &sig, || case_json(pass, t, v, &p.spec, *b, "model", &p.sql), exp, obs);
+                    if bi == 0 {
+                        default_failure[qi] = Some(f.clone());
+                    }
+                    if bi > 0 && default_failure[qi].as_deref() == Some(f.as_str()) {
+                        rep.count("violations_repeated_under_other_budgets", 1);
+                    } else {
+                        let sig = signature(&p.spec, &ops[qi], *b, f);
+                        rep.violation(PROP, "model", &sig, || case_json(pass, t, v, &p.spec, *b, "model", &p.sql), exp, obs);
+                    }
                 }
             }
             // differential across budgets (against the default budget's answer)
@@ -838,7 +942,7 @@ fn replay_sql_case(ctx: &Ctx, case: &Value, rep: &mut Reporter) {
     }
     let prep = prepare(&t, std::slice::from_ref(&s), pass == "pad");
     let p = &prep[0];
-    let op = operators(&explain(db.db(), &p.sql));
+    let op = plan_shape(&explain(db.db(), &p.sql));
     let first = if oracle == "budgets" { Some(db.exec(&p.sql)) } else { None };
     if let Some(b) = budget {
         if let Err(e) = set_budget(&db, b) {
@@ -1041,11 +1145,12 @@ fn pad_tabs(n: usize) -> Tabs {
 fn specs_pad() -> Vec<QSpec> {
     let mut v = vec![];
     for k in KINDS_ON {
-        for on in [On::Eq, On::Lt, On::EqConjR] {
+        // equi-joins only: these are the shapes planned as hash joins (the operators that can spill);
+        // CROSS / `<` over 300 x 300 padded rows cost seconds per execution and never spill by design
+        for on in [On::Eq, On::EqConjR] {
             v.push(QSpec::two(k, on, Wh::None, Form::Cols));
         }
     }
-    v.push(QSpec::two(Kind::Cross, On::None, Wh::None, Form::Cols));
     v.push(QSpec::two(Kind::Comma, On::None, Wh::JoinEq, Form::Cols));
     for k in KINDS_ON {
         v.push(QSpec::two(k, On::Eq, Wh::R, Form::Cols));
@@ -1069,9 +1174,16 @@ fn pass_pad(ctx: &Ctx, rep: &mut Reporter, case_no: &mut u64) {
             rep.capped("pad pass: deadline");
             return;
         }
+        let t0 = std::time::Instant::now();
         let prep = prepare(&t, &specs, true);
+        if ctx.opt("timing").is_some() {
+            eprintln!("pad: model prepared in {:?}", t0.elapsed());
+        }
         rep.begin_case(&case_json("pad", &t, v, &specs[0], None, "model", "").to_string());
         run_db("pad", ctx, rep, &t, v, &prep, &BUDGETS, true);
+        if ctx.opt("timing").is_some() {
+            eprintln!("pad: variant {} done at {:?}", v.name(), t0.elapsed());
+        }
         rep.count("pad_dbs", 1);
     }
 }
@@ -1092,6 +1204,11 @@ impl Check for C17 {
     }
 
     fn run(&self, ctx: &Ctx, rep: &mut Reporter) {
+        // large result sets: keep freed memory in the heap instead of mmap/munmap churn (pure performance)
+        unsafe {
+            libc::mallopt(libc::M_MMAP_THRESHOLD, 1 << 30);
+            libc::mallopt(libc::M_TRIM_THRESHOLD, 1 << 30);
+        }
         let tmp = ctx.scratch.join("tmp");
         std::fs::create_dir_all(&tmp).ok();
         std::env::set_var("TMPDIR", &tmp);
@@ -1127,8 +1244,15 @@ fn main() {
         let base = PathBuf::from(format!("/dev/shm/turdb_verif/probe17_{}", std::process::id()));
         std::fs::create_dir_all(&base).unwrap();
         let t = TestDb::create(&base, "db").expect("create");
+        let stmts = if let Some(f) = stmts.strip_prefix('@') { std::fs::read_to_string(f).expect("probe file") } else { stmts };
         for s in stmts.split(";;").map(|s| s.trim()).filter(|s| !s.is_empty()) {
-            match t.exec(s) {
+            let t0 = std::time::Instant::now();
+            let r = t.exec(s);
+            let dt = t0.elapsed();
+            if dt.as_millis() > 20 {
+                println!("    [{} ms]", dt.as_millis());
+            }
+            match r {
                 Res::Rows(r) if s.starts_with("EXPLAIN") => println!("{s}\n{}", match &r[0][0] {
                     V::Text(s) => s.clone(),
                     o => o.show(),
